@@ -81,7 +81,7 @@ def rules(P, R, prefix="C08"):
             rec = None
             if full:
                 l = full[0]
-                esc = [x for x in ir.walk(l["body"], into_closures=False) if x["k"] in ("break", "continue", "ret")]
+                esc = [x for x in ir.walk(l["body"], into_closures=False) if x["k"] in ("break", "ret")]
                 R.judge(not esc, prefix + ".D2", key(vf, "payload loop has no early exit" + tag), l["sp"], "", "the payload loop can stop early at %s" % [e["sp"] for e in esc])
                 pushes = [x for x in ir.walk(l["body"], into_closures=False) if x["k"] == "mcall" and x["name"] in ("push", "insert", "push_back") and x["recv"]["k"] == "var"]
                 okp = False
